@@ -585,7 +585,17 @@ pub fn c12(ctx: &Ctx) {
 			}
 			// the tracker under / above other wrappers gives the same threshold
 			if u > 0 && i % 3 == 0 {
-				for (layers, at) in [(vec![Layer::Counted, Layer::Mem(u)], false), (vec![Layer::Mem(u + 1), Layer::Counted], true), (vec![Layer::Depth(u32::MAX), Layer::Mem(u), Layer::Counted], false), (vec![Layer::Mem(u + 1), Layer::Depth(u32::MAX)], true)] {
+				for (layers, at) in [
+					(vec![Layer::Counted, Layer::Mem(u)], false),
+					(vec![Layer::Mem(u + 1), Layer::Counted], true),
+					(vec![Layer::Depth(u32::MAX), Layer::Mem(u), Layer::Counted], false),
+					(vec![Layer::Mem(u + 1), Layer::Depth(u32::MAX)], true),
+					// the tracker at the bottom: every wrapper above it must pass the hook down
+					(vec![Layer::Mem(u), Layer::Counted], false),
+					(vec![Layer::Mem(u), Layer::Depth(u32::MAX)], false),
+					(vec![Layer::Mem(u), Layer::Depth(u32::MAX), Layer::Counted], false),
+					(vec![Layer::Mem(u), Layer::Counted, Layer::Depth(u32::MAX)], false),
+				] {
 					rep.evaluations += 1;
 					rep.count("stacked_limits");
 					let mut spy = SpyInput::new(&enc);
